@@ -23,7 +23,7 @@ TimesOf(incs) == [k \in 1..(Len(incs) + 1) |->
 
 Init ==
     /\ phase = "pick"
-    /\ base = [judged |-> FALSE]
+    /\ base = [judged |-> FALSE, tie |-> FALSE]
     /\ \E n \in NPieces : \E tops \in [1..n -> Tops], dirs \in [1..n -> Dir] :
          coll = [i \in 1..n |-> [id |-> i, top |-> tops[i], dir |-> dirs[i], t |-> <<0, 1>>]]
 
